@@ -1,5 +1,5 @@
 (* Property C12 — configured operand value constraints are enforced. *)
-From BA Require Import Base Bits BitsSpec BitsProofs.
+From BA Require Import Base Bits BitsSpec BitsProofs Expr Layout Program ProgramProofs.
 
 (* width: a value outside the signed-or-unsigned range of its field width is rejected ... *)
 Theorem C12_width_rejects : forall ps : list part,
@@ -10,5 +10,46 @@ Print Assumptions C12_width_rejects.
 (* ... and values inside it are assembled. *)
 Theorem C12_width_accepts : forall ps : list part,
   ps <> [] -> Forall part_ok ps -> is_ok (get_bytes ps) = true.
-Proof. intros ps H1 H2. destruct (pack_correct ps H1 H2) as [E _]. rewrite E. reflexivity. Qed.
+Proof. exact pack_accepts. Qed.
 Print Assumptions C12_width_accepts.
+
+(* minimum / maximum (bit-index operands): produced iff within range *)
+Theorem C12_minmax : forall ev addr isz e mx mn size al en r,
+  part_value ev addr isz (mkpart (VValid e mx mn) size al en) = Ok r
+  <-> ev e = Ok r /\ sat_max r mx /\ sat_min r mn.
+Proof. exact part_minmax. Qed.
+Print Assumptions C12_minmax.
+
+(* membership in a numeric enumeration *)
+Theorem C12_enum : forall ev addr isz e d size al en r,
+  part_value ev addr isz (mkpart (VEnum e d) size al en) = Ok r <-> exists v, ev e = Ok v /\ dict_get d v = Some r.
+Proof. exact part_enum. Qed.
+Print Assumptions C12_enum.
+
+(* lying inside a memory zone (address operands, operands flagged as valid addresses) *)
+Theorem C12_zone : forall ev addr isz e b size al en r,
+  part_value ev addr isz (mkpart (VZone e b) size al en) = Ok r <-> ev e = Ok r /\ sat_bounds r b.
+Proof. exact part_zone. Qed.
+Print Assumptions C12_zone.
+
+Theorem C12_address_zone : forall ev addr isz e b size al en r,
+  part_value ev addr isz (mkpart (VAddr e b false false) size al en) = Ok r <-> ev e = Ok r /\ sat_bounds r b.
+Proof. exact part_address_in_zone. Qed.
+Print Assumptions C12_address_zone.
+
+(* sliced addresses share their high-order bits with the instruction's own address *)
+Theorem C12_msb_match : forall ev addr isz e b size al en r,
+  0 <= size ->
+  (part_value ev addr isz (mkpart (VAddr e b true true) size al en) = Ok r
+   <-> exists v, ev e = Ok v /\ sat_bounds v b /\ addr / 2 ^ size = v / 2 ^ size /\ r = v mod 2 ^ size).
+Proof. exact part_sliced_address. Qed.
+Print Assumptions C12_msb_match.
+
+(* relative offsets: from the instruction's address, or from its last byte; min/max enforced on the offset *)
+Theorem C12_relative : forall ev addr isz e mn mx from_end b size al en r,
+  part_value ev addr isz (mkpart (VRel e mn mx from_end b) size al en) = Ok r
+  <-> exists v, ev e = Ok v /\ sat_bounds v b
+                /\ r = (if from_end then v - (addr + (isz - 1)) else v - addr)
+                /\ sat_max r mx /\ sat_min r mn.
+Proof. exact part_relative. Qed.
+Print Assumptions C12_relative.
